@@ -802,6 +802,12 @@ func SexpToGoStructs(
 			// already did it. Return alreadyGoStruct.
 			cacheHit = true
 			vo := reflect.ValueOf(alreadyGoStruct).Elem()
+			if vo.Kind() == reflect.Interface {
+				// the record was first converted for an interface-typed
+				// field or element; share the struct pointer it holds,
+				// which pointer-typed fields accept as well.
+				vo = vo.Elem()
+			}
 			targVa.Elem().Set(vo)
 
 			return target, nil
